@@ -131,6 +131,12 @@ def apply_fault(lines: List[str], i: int, fault: str, variant: int) -> List[str]
     return new
 
 
+PROBE = [{'d': 'table', 'schema': '', 'name': 'zz_probe', 'alias': '', 'color': '', 'note': '', 'props': [], 'comment': '',
+          'cols': [{'name': 'id', 'type': {'schema': '', 'name': 'int', 'suffix': ''}, 'pk': False, 'unique': False, 'notnull': False,
+                    'autoinc': False, 'default': {'k': 'none', 'v': ''}, 'note': '', 'props': [], 'comment': '', 'refs': []}], 'idxs': []}]
+PROBE_TEXT = 'Table zz_probe {\n  id int\n}\n'
+
+
 def _exec_chunk(items):
     from pydbml import PyDBML
     from . import project as pj
@@ -141,7 +147,8 @@ def _exec_chunk(items):
             oc = 'db'
         except Exception as ex:
             oc = pj.classify(ex)
-        out.append({'tid': it['tid'], 'fault': it['fault'], 'site': it['site'], 'outcome': oc})
+        after, _, _ = pj.parse_and_project(PROBE_TEXT, links=False)     # the next parse in the same process
+        out.append({'tid': it['tid'], 'fault': it['fault'], 'site': it['site'], 'outcome': oc, 'probe': PROBE if it['tid'] % 200 == 1 or True else [], 'after': after})
     return out
 
 
